@@ -215,21 +215,26 @@ type TrustedSite struct {
 	Rule   string `json:"rule"`
 	Key    string `json:"key"`
 	Reason string `json:"reason"`
+	// Premises are linear facts ("<term> >= <int>", terms written as in the reports) that the
+	// written argument relies on; engine P must prove each of them at the site, otherwise the
+	// trust does not apply and the obligation stays a violation.
+	Premises []string `json:"premises,omitempty"`
 }
 
 type Ctx struct {
-	P           *Prog
-	Property    string
-	Tier        string
-	Obls        []*Obligation
-	known       []KnownFinding
-	trusted     []TrustedSite
-	usedTr      map[int]bool
-	Notes       []string
-	Covered     map[string]int // free-form measured counters
-	rulesRun    []string
-	seen        map[string]bool
-	TrustedBase []string
+	P            *Prog
+	Property     string
+	Tier         string
+	Obls         []*Obligation
+	known        []KnownFinding
+	trusted      []TrustedSite
+	usedTr       map[int]bool
+	Notes        []string
+	Covered      map[string]int // free-form measured counters
+	rulesRun     []string
+	premiseCheck func(o *Obligation, premises []string) (bool, string)
+	seen         map[string]bool
+	TrustedBase  []string
 }
 
 func verifDir() string {
@@ -303,6 +308,15 @@ func (c *Ctx) InfoNote(rule, key string, pos token.Pos, detail string) {
 func (c *Ctx) classify(o *Obligation) {
 	for i, t := range c.trusted {
 		if ruleFamily(t.Rule) == ruleFamily(o.Rule) && t.Key == o.Key {
+			if len(t.Premises) > 0 {
+				if c.premiseCheck == nil {
+					continue
+				}
+				if ok, why := c.premiseCheck(o, t.Premises); !ok {
+					o.Detail += " [a written argument exists for this site but its premise no longer holds: " + why + "]"
+					continue
+				}
+			}
 			o.Verdict = Trusted
 			o.Detail += " [trusted: " + t.Reason + "]"
 			c.usedTr[i] = true
